@@ -398,7 +398,7 @@ func c02Run(r *mon.Run) {
 		c := three[i]
 		w.Hit("three-groups-large")
 		max := c.N1 * c.N2
-		c.Us = []float64{float64(w.Rng.Intn(2*max+1)) / 2, float64(max) / 2, float64(max/2+w.Rng.Range(-20, 20)) / 1, float64(w.Rng.Intn(max+1)), 0, float64(max)}
+		c.Us = []float64{float64(w.Rng.Intn(2*max+1)) / 2, float64(max) / 2, float64(max/2+w.Rng.Range(-20, 20)) / 1, float64(w.Rng.Intn(max + 1)), 0, float64(max)}
 		c02Judge(w, c, false)
 	})
 
